@@ -37,6 +37,43 @@ def as_const(v):
     return None
 
 
+# ---------------------------------------------------------------- LIN: integer-linear forms over input bits and opaque quotients
+def lin(d, c=0):
+    return ("lin", tuple(sorted(((k, v) for k, v in d.items() if v), key=repr)), c)
+
+
+def to_lin(v):
+    """linear form of a bit vector / constant / linear value; None if a bit is unknown"""
+    if v[0] == "lin":
+        return v
+    if v[0] == "i" and v[1] == v[2]:
+        return lin({}, v[1])
+    if v[0] == "bv":
+        d, c = {}, 0
+        for j, s_ in enumerate(v[1]):
+            if s_ == 0:
+                continue
+            if s_ == 1:
+                c += 1 << j
+            elif isinstance(s_, tuple):
+                d[s_] = d.get(s_, 0) + (1 << j)
+            else:
+                return None
+        return lin(d, c)
+    return None
+
+
+def lin_add(a, b, sign=1):
+    d = dict(a[1])
+    for k, v in b[1]:
+        d[k] = d.get(k, 0) + sign * v
+    return lin(d, a[2] + sign * b[2])
+
+
+def lin_scale(a, n):
+    return lin({k: v * n for k, v in a[1]}, a[2] * n)
+
+
 def limb_layout(n):
     """(widths, offsets) of the n-limb field representation"""
     ws = [51] * 5 if n == 5 else [26 if i % 2 == 0 else 25 for i in range(10)]
@@ -95,8 +132,60 @@ class BvInterp(Interp):
                 return v
         return ("badtok", "%s of %s and %s is outside the canonical-encoding idiom" % (base, k(a), k(b)))
 
+    lin_mode = False        # recoding analysis: sums of bit vectors and opaque quotients are kept as integer-linear forms
+    quotients = 0
+
+    hint = None             # scenario: (lo, hi) range of the symbolic value that is narrowed to i8 (the NAF window on a digit arm)
+    hint_i8 = None
+
+    @staticmethod
+    def wrap8(v, lo, hi):
+        """v with known range [lo, hi], reinterpreted as i8: subtract the multiple of 256 that brings the whole range into [-128, 127]"""
+        k = (lo + 128) // 256
+        if (hi + 128) // 256 != k:
+            return None, None
+        return lin_add(v, lin({}, -256 * k)), (lo - 256 * k, hi - 256 * k)
+
+    def lin_binop(self, base, a, b, ty):
+        x, y = to_lin(a), to_lin(b)
+        if base in ("Add", "Sub") and x is not None and y is not None:
+            r = lin_add(x, y, -1 if base == "Sub" else 1)
+            if ty == "i8" and self.hint_i8 is not None and x[1] and not y[1]:
+                # wrapping i8 arithmetic on the narrowed window: same reinterpretation
+                lo, hi = (self.hint_i8[0] - y[2], self.hint_i8[1] - y[2]) if base == "Sub" else (self.hint_i8[0] + y[2], self.hint_i8[1] + y[2])
+                r2, rng = self.wrap8(r, lo, hi)
+                if r2 is not None:
+                    return r2
+            return r
+        if base == "Shl" and x is not None and as_const(b) is not None:
+            return lin_scale(x, 1 << as_const(b))
+        if base == "Mul" and x is not None and y is not None:
+            if not x[1]:
+                return lin_scale(y, x[2])
+            if not y[1]:
+                return lin_scale(x, y[2])
+        if base == "Shr" and x is not None and as_const(b) is not None:
+            # floor(L / 2^k): an opaque quotient symbol (the recodings' carries); nothing is assumed about its value
+            self.quotients += 1
+            return lin({("q", self.quotients): 1})
+        if base in ("Eq", "Ne", "Lt", "Le", "Gt", "Ge") and x is not None and y is not None and not x[1] and not y[1]:
+            ca, cb = x[2], y[2]
+            return I(int({"Eq": ca == cb, "Ne": ca != cb, "Lt": ca < cb, "Le": ca <= cb, "Gt": ca > cb, "Ge": ca >= cb}[base]))
+        if base == "Lt" and getattr(self, "force_lt", None) is not None:
+            return I(self.force_lt)         # scenario: outcome of the digit-arm comparison (window < width / 2)
+        if base in ("Eq", "Ne", "Lt", "Le", "Gt", "Ge"):
+            return I(0, 1)
+        if base == "BitAnd" and x is not None and as_const(b) == 1:
+            # parity of a linear form whose symbolic part is even: decided by the constant part and the coefficient-1 bits
+            odd = [k for k, v in x[1] if v % 2]
+            if not odd:
+                return of_const(x[2] & 1, W.get(ty, 64))
+        return TOP
+
     def binop(self, op, a, b, ty, fv=None, line=0):
         base = op.replace("Unchecked", "")
+        if self.lin_mode and (a[0] == "lin" or b[0] == "lin" or (base in ("Add", "Sub") and (a[0] == "bv" or b[0] == "bv"))):
+            return self.lin_binop(base, a, b, ty)
         if self.nlimbs and (a[0] in ("lmb", "s1", "cy1", "q19", "e", "cy2", "badtok") or b[0] in ("lmb", "s1", "cy1", "q19", "e", "cy2", "badtok")):
             return self.tok_binop(base, a, b)
         if a[0] == "bv" or b[0] == "bv":
@@ -130,12 +219,24 @@ class BvInterp(Interp):
                 if base == "Add" and all(p == 0 or q == 0 for p, q in zip(x[1], y[1])):
                     return bv([p if q == 0 else q for p, q in zip(x[1], y[1])])       # disjoint bits: addition is or
                 return ("bv", ("?",) * w)
-            return ("bv", ("?",) * w) if base not in ("Eq", "Ne", "Lt", "Le", "Gt", "Ge") else I(0, 1)
+            if base in ("Eq", "Ne", "Lt", "Le", "Gt", "Ge"):
+                ca, cb = as_const(x), as_const(y)
+                if ca is not None and cb is not None:
+                    return I(int({"Eq": ca == cb, "Ne": ca != cb, "Lt": ca < cb, "Le": ca <= cb, "Gt": ca > cb, "Ge": ca >= cb}[base]))
+                return I(0, 1)
+            return ("bv", ("?",) * w)
         return super().binop(op, a, b, ty, fv, line)
 
     def cast(self, v, kind, ty):
-        if v[0] in ("lmb", "s1", "cy1", "q19", "e", "cy2", "badtok"):
-            return v
+        if v[0] == "lin" and ty == "i8" and self.hint is not None and v[1]:
+            r, rng = self.wrap8(v, *self.hint)
+            if r is not None:
+                self.hint_i8 = rng
+                return r
+        if v[0] in ("lmb", "s1", "cy1", "q19", "e", "cy2", "badtok", "lin"):
+            return v            # (for "lin": width changes are value-preserving for in-range values; the ranges are C11's obligations)
+        if v[0] == "bv" and self.lin_mode and ty in ("i8", "i16", "i32", "i64") and len(v[1]) > W.get(ty, 64):
+            return to_lin(v) or TOP
         if v[0] == "bv":
             w = W.get(ty)
             if w is None:
@@ -154,6 +255,19 @@ class BvModels(Models):
 
     def call(self, ip, fv, st, depth, t, n, args, dty):
         names = [x for x in (n, t.get("callee_full") or "", (t.get("resolved") or {}).get("path") or "") if x]
+        m = re.search(r"core::num::<impl (u\d+)>::from_le_bytes$", n)
+        if m and args:
+            a = ip.deconst(ip.deref_val(st, args[0]))
+            if a[0] == "arr" and all(x[0] in ("bv", "i") for x in a[1]):
+                bits = []
+                for x in a[1]:
+                    xb = as_bv(x, 8)
+                    if xb is None:
+                        bits = None
+                        break
+                    bits += list(xb[1])
+                if bits is not None and len(bits) == W[m.group(1)]:
+                    return bv(bits)
         if self.watch and any(re.search(self.watch, nm) for nm in names):
             self.logged.append((names[0], [ip.deconst(ip.deref_val(st, a)) for a in args]))
             if self.reduce_limbs:
@@ -163,8 +277,9 @@ class BvModels(Models):
         return super().call(ip, fv, st, depth, t, n, args, dty)
 
 
-def run(F, f, values, watch=None, reduce_limbs=None):
+def run(F, f, values, watch=None, reduce_limbs=None, lin_mode=False):
     ip = BvInterp(F, BvModels(watch), step_budget=3_000_000)
+    ip.lin_mode = lin_mode
     ip.nlimbs = reduce_limbs
     ip.models.reduce_limbs = reduce_limbs
     ret, root = ip.run_root(f, values)
